@@ -34,7 +34,7 @@ type FormatsCase struct {
 // FormatIters is the number of executions per goroutine in the concurrent phase.
 var FormatIters = 25
 
-var numeralRE = regexp.MustCompile(`^-?[0-9]+\.[0-9]+$`)
+var numeralRE = regexp.MustCompile(`^[0-9]+\.[0-9]+$`)
 
 // numeralLines rewrites every output line that is a numeral with fraction digits, d.ddd, as the specification writes
 // it: the number of fraction digits, then the digits with the point left out (7.250 -> "3", "7250").
@@ -43,7 +43,11 @@ func numeralLines(out string) string {
 	for _, l := range strings.Split(strings.TrimSuffix(out, "\n"), "\n") {
 		if numeralRE.MatchString(l) {
 			i := strings.IndexByte(l, '.')
-			fmt.Fprintf(&sb, "%d\n%s\n", len(l)-i-1, l[:i]+l[i+1:])
+			digits := strings.TrimLeft(l[:i]+l[i+1:], "0") // as a number: 0.250 is <<3, 250>>
+			if digits == "" {
+				digits = "0"
+			}
+			fmt.Fprintf(&sb, "%d\n%s\n", len(l)-i-1, digits)
 		} else {
 			sb.WriteString(l + "\n")
 		}
